@@ -11,7 +11,6 @@ with Model.Store.file_frame / stream_frame.
 Search (independent of Coq): the same runs are compared with a plain Python dict.
 Sampled assumption: the codec hypotheses of the framing theorems are tested on the value universe."""
 import base64
-import gc
 import os
 import threading
 import decimal
@@ -541,7 +540,6 @@ def apply_op(drv, op, U):
             except BaseException as e:
                 if type(e).__name__ != op[2]:
                     raise
-                gc.collect()
                 return ('raised', op[2], how)
             return ('unit',)
         if kind == 'dump_begin':
